@@ -31,6 +31,11 @@ THEOREMS = [
     "SleapVerif.C14.paf_channels_eq_two_len",
     "SleapVerif.C14.confmap_channels_eq_len",
     "SleapVerif.C14.paf_channels_no_dedup",
+    "SleapVerif.C14.same_padding_preserves_size",
+    "SleapVerif.C14.explicit_half_padding_grows_even_kernel",
+    "SleapVerif.C14.stem_kernel_irrelevant",
+    "SleapVerif.C14.arch_contract_stem_kernel",
+    "SleapVerif.C14.stem_kernel_invalid_rejected",
     "SleapVerif.C14.enc_spatial_exact",
     "SleapVerif.C14.dec_spatial_exact",
     "SleapVerif.C14.output_spatial",
@@ -110,7 +115,12 @@ def doc_valid(c):
         return False
     if c["fam"] != "unet" and c["rate"] != "2":
         return False
-    return c["cpb"] >= 1
+    # the wrappers' stem conv has padding=1 hard-coded: it divides multiples of its stride exactly
+    # iff 2 < kernel <= stride + 2 (stem_patch_kernel / patch_size); other kernels are rejected in forward
+    if c["fam"] != "unet" and not (2 < c.get("stem_kernel", 4) <= c["stem"] + 2):
+        return False
+    # kernel_size (all "same"-padded stride-1 convs) may be any k >= 1: it does not enter the bookkeeping
+    return c["cpb"] >= 1 and c.get("kernel", 3) >= 1
 
 
 def known_region(c):
@@ -137,7 +147,7 @@ def model_line(c, calls):
     var = VARIANTS[c["fam"]].index(c["variant"]) if c["fam"] != "unet" else 0
     hl = head_specs(c)
     return (f"model {c['fam']} {var} {c['filters']} {p} {q} {c['ms']} {c['bos']} {c['stem'] or 0} {c['cpb']} "
-            f"{int(c['mid'])} {int(c['upi'])} 1 {int(FIX['mid'])} {int(FIX['wrap'])} " + lst(hl) + " "
+            f"{int(c['mid'])} {int(c['upi'])} 1 {int(FIX['mid'])} {int(FIX['wrap'])} {c.get('stem_kernel', 4)} " + lst(hl) + " "
             + lst(calls, lambda hw: f"{hw[0]} {hw[1]}"))
 
 
@@ -168,6 +178,7 @@ def gen_cfg(rng, fam=None, small=True):
              edge_list=[list(e) for e in edge_list],
              cpb=rng.choice([1, 2, 2, 2, 3]), upi=rng.random() < 0.6, mid=rng.random() < 0.8,
              rate=rng.choice(["1", "3/2", "2", "2"]), filters=0, variant="", float_rate=rng.random() < 0.2)
+    c["kernel"] = rng.choice([3, 3, 3, 1, 2, 4, 5, 2, 4])  # conv geometry: every k >= 1 is valid ("same" padding)
     if fam == "unet":
         c["filters"] = rng.choice([8, 16, 24, 32, 64])
         c["ms"] = rng.choice([8, 16, 32])
@@ -178,6 +189,7 @@ def gen_cfg(rng, fam=None, small=True):
         c["stem"] = rng.choice([2, 4])
         S = c["stem"] * 8
         c["ms"] = rng.choice([S, S, 16, 32])  # config.max_stride is ignored by the wrappers
+        c["stem_kernel"] = rng.choice([4, 4, 4, 3, 5, 6, 2, 7])  # stem_patch_kernel / patch_size
         c["mid"] = True
         if rng.random() < 0.75:
             c["rate"] = "2"
@@ -215,16 +227,17 @@ def build_real(c):
     p, q = RATES[c["rate"]]
     rate = p / q if (q != 1 or c.get("float_rate")) else p
     if c["fam"] == "unet":
-        bc = dict(in_channels=1, kernel_size=3, filters=c["filters"], filters_rate=rate, max_stride=c["ms"],
+        bc = dict(in_channels=1, kernel_size=c.get("kernel", 3), filters=c["filters"], filters_rate=rate, max_stride=c["ms"],
                   convs_per_block=c["cpb"], stacks=1, stem_stride=c["stem"], middle_block=c["mid"],
                   up_interpolate=c["upi"], output_stride=c["bos"])
     elif c["fam"] == "convnext":
-        bc = dict(in_channels=1, model_type=c["variant"], arch=None, kernel_size=3, filters_rate=rate,
-                  convs_per_block=c["cpb"], up_interpolate=c["upi"], stem_patch_kernel=4,
+        bc = dict(in_channels=1, model_type=c["variant"], arch=None, kernel_size=c.get("kernel", 3), filters_rate=rate,
+                  convs_per_block=c["cpb"], up_interpolate=c["upi"], stem_patch_kernel=c.get("stem_kernel", 4),
                   stem_patch_stride=c["stem"], output_stride=c["bos"], max_stride=c["ms"])
     else:
-        bc = dict(in_channels=1, model_type=c["variant"], arch=None, patch_size=[4, 4], window_size=[7, 7],
-                  kernel_size=3, filters_rate=rate, convs_per_block=c["cpb"], up_interpolate=c["upi"],
+        bc = dict(in_channels=1, model_type=c["variant"], arch=None,
+                  patch_size=[c.get("stem_kernel", 4), c.get("stem_kernel", 4)], window_size=[7, 7],
+                  kernel_size=c.get("kernel", 3), filters_rate=rate, convs_per_block=c["cpb"], up_interpolate=c["upi"],
                   stem_patch_stride=c["stem"], output_stride=c["bos"], max_stride=c["ms"])
     parts = [f"n{i}" for i in parts_of(c)]
     if c["kind"] == "centroid":
@@ -313,25 +326,67 @@ def impl_run(c, calls, B=1, seed=0):
             made, info)
 
 
+FRAME_CONTENTS = ["two_instances", "empty", "all_nan"]
+
+
 def target_shapes(c, h, w):
-    """shapes the REAL data pipeline produces for the heads' targets (generate_confmaps / generate_pafs)"""
+    """Shapes (without the sample axis) the REAL data pipeline produces for the heads' targets, through
+    the functional API (generate_confmaps / generate_multiconfmaps / generate_pafs) and through the
+    legacy IterDataPipe generators, for frames with two instances, with NO instance (a labelled
+    negative frame) and with all-NaN instances.  -> [(label, head index, shape | 'raise:<Class>')]"""
     import torch
-    from sleap_nn.data.confidence_maps import generate_confmaps, generate_multiconfmaps
-    from sleap_nn.data.edge_maps import generate_pafs
+    from sleap_nn.data.confidence_maps import (ConfidenceMapGenerator, MultiConfidenceMapGenerator,
+                                               generate_confmaps, generate_multiconfmaps)
+    from sleap_nn.data.edge_maps import PartAffinityFieldsGenerator, generate_pafs
+
+    out = []
+
+    def rec(label, head, fn):
+        r = call(fn)
+        out.append((label, head, tuple(r[1]) if r[0] == "ok" else "raise:" + r[1]))
 
     n = len(parts_of(c))
-    if c["kind"] in ("single_instance", "centered_instance"):
-        inst = torch.rand(1, n, 2) * min(h, w)
-        return [tuple(generate_confmaps(inst, (h, w), 2.0, c["hos"]).shape[1:])]
-    if c["kind"] == "centroid":
-        cen = torch.rand(1, 2, 2) * min(h, w)
-        return [tuple(generate_multiconfmaps(cen, (h, w), 2, 2.0, c["hos"], is_centroids=True).shape[1:])]
-    E = edges_of(c)  # the list as configured: generate_pafs makes one field per listed edge
-    nn = max([n] + [max(e) + 1 for e in E])
-    inst = torch.rand(1, 2, nn, 2) * (min(h, w) - 2) + 1
-    cm = generate_multiconfmaps(inst[:, :, :n], (h, w), 2, 2.0, c["hos"])
-    pf = generate_pafs(inst, (h, w), 4.0, c["pos"], edge_inds=torch.tensor(E), flatten_channels=True)
-    return [tuple(cm.shape[1:]), tuple(pf.shape)]
+    img = torch.zeros(1, 1, h, w)
+    hos = c["hos"]
+    for content in FRAME_CONTENTS:
+        k = 0 if content == "empty" else 2
+        nan = content == "all_nan"
+        if c["kind"] in ("single_instance", "centered_instance"):
+            if content == "empty":
+                continue  # these heads always get exactly one instance
+            inst = torch.full((1, n, 2), float("nan")) if nan else torch.rand(1, n, 2) * min(h, w)
+            rec(f"generate_confmaps/{content}", 0, lambda: generate_confmaps(inst, (h, w), 2.0, hos).shape[1:])
+            key = "instance" if c["kind"] == "centered_instance" else "instances"
+            ex = {"image": img, key: inst if key == "instance" else inst.unsqueeze(1)}
+            rec(f"ConfidenceMapGenerator/{content}", 0,
+                lambda: next(iter(ConfidenceMapGenerator([ex], sigma=2.0, output_stride=hos, instance_key=key)))[
+                    "confidence_maps"].shape[1:])
+        elif c["kind"] == "centroid":
+            cen = torch.full((1, k, 2), float("nan")) if nan else torch.rand(1, k, 2) * min(h, w)
+            rec(f"generate_multiconfmaps(centroids)/{content}", 0,
+                lambda: generate_multiconfmaps(cen, (h, w), k, 2.0, hos, is_centroids=True).shape[1:])
+            ex = {"image": img, "centroids": cen, "num_instances": k}
+            rec(f"MultiConfidenceMapGenerator(centroids)/{content}", 0,
+                lambda: next(iter(MultiConfidenceMapGenerator([ex], sigma=2.0, output_stride=hos, centroids=True)))[
+                    "centroids_confidence_maps"].shape[1:])
+        else:
+            E = edges_of(c)  # the list as configured: generate_pafs makes one field per listed edge
+            nn = max([n] + [max(e) + 1 for e in E])
+            inst = torch.full((1, k, nn, 2), float("nan")) if nan else torch.rand(1, k, nn, 2) * (min(h, w) - 2) + 1
+            ei = torch.tensor(E)
+            rec(f"generate_multiconfmaps/{content}", 0,
+                lambda: generate_multiconfmaps(inst[:, :, :n], (h, w), k, 2.0, hos).shape[1:])
+            ex = {"image": img, "instances": inst[:, :, :n], "num_instances": k}
+            rec(f"MultiConfidenceMapGenerator/{content}", 0,
+                lambda: next(iter(MultiConfidenceMapGenerator([ex], sigma=2.0, output_stride=hos, centroids=False)))[
+                    "confidence_maps"].shape[1:])
+            rec(f"generate_pafs/{content}", 1,
+                lambda: generate_pafs(inst, (h, w), 4.0, c["pos"], edge_inds=ei, flatten_channels=True).shape)
+            ex2 = {"image": img, "instances": inst}
+            rec(f"PartAffinityFieldsGenerator/{content}", 1,
+                lambda: next(iter(PartAffinityFieldsGenerator([ex2], sigma=4.0, output_stride=c["pos"], edge_inds=ei,
+                                                              flatten_channels=True)))["part_affinity_fields"].shape)
+    return out
 
 
 def oracle(c, calls, made, info, B):
@@ -368,16 +423,19 @@ def oracle(c, calls, made, info, B):
         if not info["batch_ok"] or not info["finite"]:
             return "batch dimension changed or non-finite output (off-grid input)"
         return None
-    try:
-        tgt = target_shapes(c, h, w)
-    except Exception as e:  # pipeline itself failed: not this property's business
-        tgt = None
     for i, ((os_, ch), name) in enumerate(zip(head_list(c), names)):
         want = (B, ch, h // os_, w // os_)
         if info["out"][name] != want:
             return f"{name}: shape {info['out'][name]} != contracted {want}"
-        if tgt is not None and tuple(info["out"][name][1:]) != tuple(tgt[i]):
-            return f"{name}: shape {info['out'][name][1:]} != pipeline target shape {tgt[i]}"
+    # "the same shape the data pipeline produces for that head's targets": every entry point, also for
+    # frames without instances and with all-NaN instances (a pipeline call that raises is counted, not judged)
+    for label, i, shape in target_shapes(c, h, w):
+        if isinstance(shape, str):
+            info.setdefault("target_raises", []).append(label + ":" + shape)
+            continue
+        if tuple(info["out"][names[i]][1:]) != tuple(shape):
+            return (f"{names[i]}: output shape {info['out'][names[i]][1:]} != target shape {tuple(shape)} "
+                    f"produced by {label} for a {h}x{w} image")
     if not info["batch_ok"] or not info["finite"]:
         return "batch dimension changed or non-finite output"
     return None
@@ -581,6 +639,14 @@ def main(chk: Check):
         lines.append(f"pad {i} {k} {s} {d}")
         r = call(mp._calc_same_pad, i, k, s, d)
         impl.append(str(r[1]) if r[0] == "ok" else "raise " + r[1])
+    # torch's padding="same" (stride 1): the modelling assumption behind `same_padding_preserves_size`
+    for k in range(1, 8):
+        conv = torch.nn.Conv2d(1, 1, kernel_size=k, stride=1, padding="same")
+        for n in sorted({1, 2, 3, 8, rng.randrange(4, 40), rng.randrange(4, 40)}):
+            with torch.no_grad():
+                r = call(lambda: conv(torch.zeros(1, 1, n, n + 1)).shape)
+            lines.append(f"sameconv {n} {k}")
+            impl.append(f"{r[1][2]}" if r[0] == "ok" else "raise")
     cap = {}
     orig_init = UNet.__init__
     try:
@@ -597,6 +663,10 @@ def main(chk: Check):
         UNet.__init__ = orig_init
     for l, i, m in zip(lines, impl, run_driver("C14.lean", lines)):
         chk.case(l, None, tags=["gen:" + l.split()[0]])
+        if l.startswith("sameconv"):
+            m = m.split()[0]  # second number: the explicit k//2 padding (documented contrast, not the code)
+            if i != l.split()[1]:
+                chk.fail('nn.Conv2d(padding="same") does not preserve the size', {"line": l}, i)
         if i != m:
             chk.disagree("generated definition == python function", {"line": l}, i, m)
             if l.startswith("pad"):
@@ -644,6 +714,21 @@ def main(chk: Check):
     cases.append((c, [(32, 48)], 1, ["fixed_region:duplicate_edges"]))
     c = dict(c, kind="single_instance", part_ids=[0, 1, 1, 0, 2])  # repeated part names
     cases.append((c, [(16, 16)], 2, ["fixed_region:repeated_parts"]))
+    # conv geometry: even kernels, one decoder block (a size error would be silent) and several blocks
+    for fam, kern, extra in (("unet", 2, dict(filters=8, ms=16, stem=None, variant="", bos=8, hos=8)),
+                             ("unet", 4, dict(filters=8, ms=16, stem=None, variant="", bos=2, hos=4)),
+                             ("unet", 1, dict(filters=8, ms=8, stem=2, variant="", bos=1, hos=1)),
+                             ("convnext", 2, dict(filters=0, ms=16, stem=2, variant="tiny", bos=8, hos=8, stem_kernel=3)),
+                             ("swint", 4, dict(filters=0, ms=32, stem=4, variant="tiny", bos=4, hos=8, stem_kernel=6))):
+        c = dict(fam=fam, kind="centroid", parts=1, edges=1, cpb=3 if kern == 4 else 2, upi=kern != 4, mid=True,
+                 pos=extra["hos"], rate="2", float_rate=False, kernel=kern, **extra)
+        S = real_max_stride(c)
+        cases.append((c, [(S, 2 * S)], 1, ["fixed_region:kernel_size"]))
+    # target shapes on NON-square images incl. empty / all-NaN frames: every head kind, always
+    for kind in KINDS:
+        c = dict(fam="unet", kind=kind, parts=3, edges=2, cpb=2, upi=True, mid=True, rate="2", filters=8, variant="",
+                 float_rate=False, ms=16, stem=None, bos=2, hos=2, pos=4)
+        cases.append((c, [(32, 64)], 1, ["fixed_region:nonsquare_targets"]))
     n_rand = chk.n(170, 1200)
     for i in range(n_rand):
         c = gen_cfg(rng, small=not (chk.thorough or i % 40 == 0))
@@ -659,6 +744,11 @@ def main(chk: Check):
         table = [c for c in table if cost(c) <= 1100] + rng.sample(heavy, min(8, len(heavy)))
     for c in table:
         cases.append((c, [(2 * c["ms"], 2 * c["ms"])], 1, ["table"]))
+    if chk.thorough:  # kernel_size in full on every table row that is cheap to build
+        for c in table:
+            if cost(c) <= 300:
+                for kern in (1, 2, 4, 5):
+                    cases.append((dict(c, kernel=kern), [(2 * c["ms"], c["ms"])], 1, ["table_x_kernel"]))
 
     model_outs = run_driver("C14.lean", [model_line(c, calls) for c, calls, _, _ in cases])
     n_done = 0
@@ -800,7 +890,8 @@ if __name__ == "__main__":
              "combinations, 30% arbitrary; inputs a*S x b*S, call histories, off-grid sizes (excluded region: "
              "model still compared exactly, property oracle size-agnostic there); plus a sample (quick) / all "
              "(thorough) of the factored UNet table; distinct = distinct (config, call history)",
-        assumptions=["in_channels = 1; kernel sizes fixed (3, stem 7/4): they do not enter the bookkeeping",
+        assumptions=["in_channels = 1; kernel_size in {1..5} and stem_patch_kernel / patch_size in {2..7} are sampled (kernel_size does "
+                     "not enter the model: same_padding_preserves_size); the UNet stem kernel (7) is not configurable",
                      "a forward that raises ends a call history (pool layers would be in mixed states)"],
     )
     run_check(chk, main, replay)
